@@ -13,7 +13,7 @@ from .. import symjax as sj, solve, refsem as rs, gfi
 
 FUNCTIONS = ["genjax.distributions (24 wrappers)", "tfp_distribution", "distribution", "wrap_sampler", "wrap_logpdf", "sample_binder",
              "log_density_binder", "seed (sample case)", "modular_vmap batch rule of sample sites"]
-BOUNDS = {"distributions": "all 24 exported wrappers + user-wrapped tfp_distribution / distribution instances",
+BOUNDS = {"distributions": "all 24 exported wrappers + user-wrapped tfp_distribution / distribution instances (one re-using the name of a built-in with another parameterisation)",
           "shapes": "scalar parameters (vector parameters for categorical K=3, dirichlet/multinomial k=2, multivariate_normal d=2); sample_shape () and (2,); modular_vmap batch 2",
           "finite supports for normalisation": "flip, bernoulli, categorical K in {2,3}, binomial n <= 3"}
 ASSUMPTIONS = ["normalisation of continuous / infinite-support densities is an integral / series: not an SMT query (outside)",
